@@ -329,13 +329,18 @@ func (e StdEng) denseConcat(a DenseTensor, axis int, Ts []DenseTensor) (DenseTen
 		var vmask, Tmask []bool
 		vmask = v.mask
 		v.mask = nil
-		if mt, ok := T.(MaskedTensor); ok && mt.IsMasked() {
+		mt, ok := T.(MaskedTensor)
+		if ok && mt.IsMasked() {
 			Tmask = mt.Mask()
 			mt.SetMask(nil)
-
 		}
 
-		if err = assignArray(v, T); err != nil {
+		err = assignArray(v, T)
+		if Tmask != nil {
+			// the mask was only removed for the duration of the copy
+			mt.SetMask(Tmask)
+		}
+		if err != nil {
 			return nil, errors.Wrap(err, "Unable to assignArray in denseConcat")
 		}
 		// if it's a masked tensor, we copy the mask as well
@@ -349,7 +354,6 @@ func (e StdEng) denseConcat(a DenseTensor, axis int, Ts []DenseTensor) (DenseTen
 				copy(vmask, Tmask)
 				v.SetMask(vmask)
 			}
-			// mt.SetMask(Tmask)
 		}
 
 		start = end
